@@ -3,3 +3,4 @@ import CorgiSpec.Ops
 import CorgiSpec.Dual
 import CorgiSpec.Oracle
 import CorgiSpec.ShapeCheck
+import CorgiSpec.ConvAt
